@@ -105,10 +105,14 @@ def ws2dwcvp(y, nodata, p, llas, robust, out, lopt):
                 if mad > 1e-9 * np.max(np.abs(yv)):
                     u_arr = r_arr / (1.4826 * mad * np.sqrt(1 - gamma.sum() / n))
 
-                    r_weights = (1 - (u_arr / 4.685) ** 2) ** 2
-                    r_weights[(np.abs(u_arr / 4.685) > 1)] = 0
+                    new_weights = (1 - (u_arr / 4.685) ** 2) ** 2
+                    new_weights[(np.abs(u_arr / 4.685) > 1)] = 0
 
-                    r_weights[r_arr > 0] = 1
+                    new_weights[r_arr > 0] = 1
+
+                    # with fewer than two weighted cells the system is singular
+                    if ((w * new_weights) > 0).sum() > 1:
+                        r_weights = new_weights
 
             robust_weights = w * r_weights
 
@@ -227,10 +231,14 @@ def _ws2dwcvp(y, w, p, llas, robust):
             if mad > 1e-9 * np.max(np.abs(y)):
                 u_arr = r_arr / (1.4826 * mad * np.sqrt(1 - gamma.sum() / n))
 
-                r_weights = (1 - (u_arr / 4.685) ** 2) ** 2
-                r_weights[(np.abs(u_arr / 4.685) > 1)] = 0
+                new_weights = (1 - (u_arr / 4.685) ** 2) ** 2
+                new_weights[(np.abs(u_arr / 4.685) > 1)] = 0
 
-                r_weights[r_arr > 0] = 1
+                new_weights[r_arr > 0] = 1
+
+                # with fewer than two weighted cells the system is singular
+                if ((w * new_weights) > 0).sum() > 1:
+                    r_weights = new_weights
 
         robust_weights = w * r_weights
 
